@@ -12,6 +12,14 @@ ASSUMPTIONS = [
     "Stokes-type line-integral formula the implementation uses; tolerance 1e-5 * (volume or area) + 1e-9",
     "the surface triangulation used by the oracle is the exact fan triangulation of the faces from the Coq model (entry fans)",
     "polygon: q is projected into the polygon's plane, as the property states",
+    "model <-> code tie for the hand-written formulas polygon_ff_code / polyhedron_ff_code: the Coq definitions are extracted with R realised by binary64 "
+    "(Extract/ExtractR.v: R => float, R0 R1 Rplus Rmult Ropp Rinv => float operations, sin cos => OCaml's, Rle_dec Rlt_dec Req_EM_T => float comparisons, "
+    "ClassicalDedekindReals.sig_forall_dec => dummy for dead code; these directives are unsound as statements about reals and are used for this comparison only, "
+    "no theorem depends on them) and compared with the implementation to 1e-8 * measure for |q| size >= 0.1 on the q != 0 branch of every face",
+    "sphere: the two value expressions of Sphere.compute_form_factor_amplitude are regenerated from the source on every run (harness/translate/scalars.py); the "
+    "masked-array plumbing and the phase/density statement are matched textually (fail closed)",
+    "modelled, not proved: the signed cones (o, a, b, c) of a closed oriented surface tile the solid (shared with C01/C02); faces are listed counter-clockwise "
+    "about their stored normals (the orientation factor of the polygon method is then +1: C12_code_face_term_counterclockwise)",
 ]
 NGL = 32
 _x, _w = np.polynomial.legendre.leggauss(NGL)
@@ -124,6 +132,7 @@ def run(chk):
         exact = ft_solid(V, tris, Q)
         judge(chk, type(sh).__name__, kind, sh, Q, exact, vol, dict(vertices=V.tolist(), faces=[list(map(int, f)) for f in sh.faces], _size=size, _offc=1.0 + float(np.linalg.norm(V.mean(0))) / size))
         translation_law(chk, sh, Q, vol)
+        model_correspondence(chk, type(sh).__name__, kind, sh, Q, vol, size, dict(vertices=V.tolist(), faces=[list(map(int, f)) for f in sh.faces]))
     # ---------------------------------------------------------------- polygons
     for _ in range(nsh):
         kind, P = gen.simple_polygon(rng)
@@ -145,6 +154,7 @@ def run(chk):
         # the integral over the polygon's AREA does not depend on the vertex orientation: use the unsigned measure
         sgn = np.sign(np.real(ft_polygon(V, n, np.zeros((1, 3)))[0]))
         judge(chk, "Polygon", kind, sh, Q, exact * sgn, area, dict(vertices=V.tolist(), normal=n.tolist()))
+        model_correspondence(chk, "Polygon", kind, sh, Q, area, size, dict(vertices=V.tolist(), normal=n.tolist()))
     # ---------------------------------------------------------------- spheres
     xr, wr = np.polynomial.legendre.leggauss(80)
     for _ in range(nsh):
@@ -158,6 +168,48 @@ def run(chk):
         radial = np.array([np.sum(w * 4 * math.pi * r * r * np.sinc(k * r / math.pi)) for k in qn])
         exact = radial * np.exp(-1j * Q @ c)
         judge(chk, "Sphere", "sphere", sh, Q, exact, 4 / 3 * math.pi * R ** 3, dict(radius=R, center=c.tolist()))
+
+
+def model_correspondence(chk, cls, kind, sh, Q, measure, size, desc):
+    """The hand-written real-number model the theorems are about (Model/FormFactor.v: polygon_ff_code / polyhedron_ff_code), extracted
+    with R realised by binary64 (Extract/ExtractR.v), is run on the implementation's own stored vertices / faces / normals and compared
+    with the implementation, wave vector by wave vector, where the model applies: the q != 0 branch of every polygon involved
+    (|q_projected|^2 well above the isclose threshold) and |q| * size >= 0.1 (below that both evaluations are dominated by cancellation:
+    the recorded small-q finding).  Same formula, different summation order: agreement to 1e-8 * measure."""
+    Vv = np.asarray(sh.vertices, float)
+    if cls == "Polygon":
+        planes = [(np.asarray(sh.normal, float), list(range(len(Vv))))]
+    else:
+        planes = [(np.asarray(e[:3], float), [int(i) for i in f]) for f, e in zip(sh.faces, sh._equations)]
+    ok = np.linalg.norm(Q, axis=1) * size >= 0.1
+    for n, _ in planes:
+        qp = Q - np.outer(Q @ n, n)
+        ok &= np.sum(qp * qp, axis=1) > 1e-6
+    if cls != "Polygon":
+        ok &= np.sum(Q * Q, axis=1) > 1e-6
+    idx = np.nonzero(ok)[0]
+    if len(idx) == 0:
+        return
+    if cls == "Polygon":
+        n, f = planes[0]
+        lines = ["P|%s|%s|%s" % (C.hx(n), C.hx(Q[k]), C.hx(Vv.ravel())) for k in idx]
+    else:
+        faces = ";".join("%s:%s" % (C.hx(n), C.hx(Vv[f].ravel())) for n, f in planes)
+        lines = ["H|%s|%s" % (C.hx(Q[k]), faces) for k in idx]
+    mod = C.run_model_r(lines)
+    st, got = C.excname(lambda: np.asarray(sh.compute_form_factor_amplitude(Q[idx].copy())))
+    chk.count("model-correspondence:" + cls, len(idx))
+    if st != "ok" or got.shape != (len(idx),):
+        return          # (reported by judge)
+    offc = 1.0 + float(np.linalg.norm(Vv.mean(0))) / size
+    tol = 1e-8 * measure * offc
+    for j, k in enumerate(idx):
+        if mod[j] is None or not (abs(mod[j] - got[j]) <= tol):
+            d = {kk: v for kk, v in desc.items() if not kk.startswith("_")}
+            chk.violation("model-vs-implementation", dict(d, cls=cls, kind=kind, q=Q[k].tolist(), impl=[float(got[j].real), float(got[j].imag)],
+                                                          model=None if mod[j] is None else [mod[j].real, mod[j].imag], tol=tol,
+                                                          what="the Coq model of the formula (float-extracted) and the implementation differ"))
+            return
 
 
 def face_under_threshold(sh, Q):
@@ -260,4 +312,34 @@ def translation_law(chk, sh, Q, vol):
 
 
 def replay(chk, rep):
-    return rep["detail"]
+    """re-evaluate the recorded input: implementation now, the float-extracted Coq model, and the quadrature oracle"""
+    import coxeter
+
+    d = rep["detail"]
+    out = dict(recorded=d)
+    try:
+        q = np.array([d["q"]], float) if "q" in d and np.ndim(d["q"]) == 1 else None
+        if q is None:
+            return out
+        if "radius" in d:
+            sh = coxeter.shapes.Sphere(d["radius"], d["center"])
+        elif "faces" in d:
+            V = np.array(d["vertices"], float)
+            sh = (coxeter.shapes.ConvexPolyhedron(V) if d.get("cls") == "ConvexPolyhedron"
+                  else coxeter.shapes.Polyhedron(V, [np.array(f) for f in d["faces"]]))
+        else:
+            sh = coxeter.shapes.Polygon(np.array(d["vertices"], float), normal=d.get("normal"))
+        got = np.asarray(sh.compute_form_factor_amplitude(q.copy()))[0]
+        out["implementation_now"] = [float(got.real), float(got.imag)]
+        Vv = np.asarray(getattr(sh, "vertices", np.zeros((0, 3))), float)
+        if "faces" in d:
+            faces = ";".join("%s:%s" % (C.hx(e[:3]), C.hx(Vv[[int(i) for i in f]].ravel())) for f, e in zip(sh.faces, sh._equations))
+            m = C.run_model_r(["H|%s|%s" % (C.hx(q[0]), faces)])[0]
+        elif "radius" not in d:
+            m = C.run_model_r(["P|%s|%s|%s" % (C.hx(np.asarray(sh.normal, float)), C.hx(q[0]), C.hx(Vv.ravel()))])[0]
+        else:
+            m = None
+        out["coq_model_float_extracted"] = None if m is None else [m.real, m.imag]
+    except Exception as e:  # noqa: BLE001
+        out["replay_error"] = "%s: %s" % (type(e).__name__, e)
+    return out
